@@ -600,7 +600,7 @@ def judge_vjp(ctx, impl, o, arrays, g, dtype, worst=None):
 # (d2) C09 oracle: mpmath reference for large magnitudes
 SELU_ALPHA = "1.6732632423543772848170429916717"
 SELU_SCALE = "1.0507009873554804934193349852946"
-MAGS = [0.0, 1e-3, 0.5, 1.0, 5.0, 10.0, 17.0, 36.9, 50.0, 87.0, 88.0, 88.72, 88.73, 89.0, 100.0, 103.9, 104.0, 500.0,
+MAGS = [0.0, 1e-3, 0.5, 1.0, 5.0, 10.0, 17.0, 36.9, 50.0, 87.0, 87.5, 88.0, 88.5, 88.72, 88.73, 89.0, 90.0, 100.0, 103.0, 103.9, 104.0, 500.0,
         709.0, 709.8, 710.0, 745.0, 746.0, 1e3, 5e3, 1e4]
 
 
@@ -638,26 +638,37 @@ def c09_eval(impl, o, xs, y, dtype, g):
     return np.asarray(out.data, dtype=np.float64), np.asarray(x._grad, dtype=np.float64), out.data.dtype, x._grad.dtype
 
 
-def oracle_c09(ctx, extra_modules=True):
+ORDERS = [("float64", "float32"), ("float32", "float64")]
+
+
+def c09_inputs(seed, quick, extra=()):
+    import random
+    rng = random.Random(seed)
+    return sorted(set([s * m for m in MAGS for s in (1.0, -1.0)] + [float(v) for v in extra] +
+                      [rng.choice([-1, 1]) * 10 ** rng.uniform(-2, 4) for _ in range(40 if quick else 400)]))
+
+
+def c09_worker(order, seed, quick, extra=()):
+    """Runs in a FRESH process (module-level state of the implementation starts empty): every op in dtype order[0], then every op
+    in dtype order[1].  Returns {"report": per-op worst cases, "failures": [...]} (JSON-able)."""
     from lib import impl
     import mpmath as mp
     np = impl.np
-    rng = ctx.rng
-    xs = sorted(set([s * m for m in MAGS for s in (1.0, -1.0)] +
-                    [rng.choice([-1, 1]) * 10 ** rng.uniform(-2, 4) for _ in range(40 if ctx.quick else 400)]))
-    report, found = {}, 0
-    for o in c09_ops():
-        for dtype in (np.float32, np.float64):
+    xs = c09_inputs(seed, quick, extra)
+    report, failures = {}, []
+    for dname in order:                       # dtype is the OUTER loop: all ops in the first dtype run before any op in the second
+        dtype = np.dtype(dname).type
+        for o in c09_ops():
             for y in o["targets"]:
                 xr = [float(np.array(v, dtype=dtype)) for v in xs]          # the reals actually fed in
                 g = [1.0 if i % 2 == 0 else -1.5 for i in range(len(xr))]
-                key = "%s/%s%s" % (o["name"], np.dtype(dtype).name, "" if y is None else "/y=%s" % y)
+                key = "%s/%s%s" % (o["name"], dname, "" if y is None else "/y=%s" % y)
                 site = ("nn.functional.%s" % o["name"]) if not o["name"].startswith("nn.") else o["name"]
                 try:
                     val, grad, odt, gdt = c09_eval(impl, o, xr, y, dtype, g)
                 except Exception as ex:
-                    found += bool(ctx.witness(site, "raises", {"op": o["name"], "dtype": np.dtype(dtype).name, "x": xr[:5], "y": y},
-                                              "finite values and gradients", {"raised": repr(ex)}))
+                    failures.append({"site": site, "class": "raises", "input": {"op": o["name"], "dtype": dname, "x": xr[:5], "y": y, "dtype_order": list(order)},
+                                     "expected": "finite values and gradients", "observed": {"raised": repr(ex)}})
                     continue
                 worst_v, worst_g = (0.0, None), (0.0, None)
                 for i, xv in enumerate(xr):
@@ -672,16 +683,47 @@ def oracle_c09(ctx, extra_modules=True):
                         if kind == "gradient" and not (err <= worst_g[0]):
                             worst_g = (err, xv)
                         if not (err <= 1e-5):
-                            if found < 5:
-                                ok = ctx.witness(site + ("" if kind == "value" else "/backward"), "large-magnitude",
-                                                 {"op": o["name"], "dtype": np.dtype(dtype).name, "x": xv, "y": y, "g": g[i], "kind": kind},
-                                                 {"reference_60_digits": mp.nstr(ref, 20), "tolerance": "1e-5 * max(1,|x|)"},
-                                                 {"observed": float(got), "error_relative_to_max(1,|x|)": err})
-                                found += bool(ok)
-                report[key] = {"worst_value_err": worst_v[0], "at_x": worst_v[1], "worst_gradient_err": worst_g[0], "grad_at_x": worst_g[1],
+                            failures.append({"site": site + ("" if kind == "value" else "/backward"), "class": "large-magnitude",
+                                             "input": {"op": o["name"], "dtype": dname, "x": xv, "y": y, "g": g[i], "kind": kind, "dtype_order": list(order)},
+                                             "expected": {"reference_60_digits": mp.nstr(ref, 20), "tolerance": "1e-5 * max(1,|x|)"},
+                                             "observed": {"observed": float(got) if math.isfinite(got) else repr(float(got)), "error_relative_to_max(1,|x|)": err if math.isfinite(err) else "inf"}})
+                report[key] = {"worst_value_err": worst_v[0] if math.isfinite(worst_v[0]) else "inf", "at_x": worst_v[1],
+                               "worst_gradient_err": worst_g[0] if math.isfinite(worst_g[0]) else "inf", "grad_at_x": worst_g[1],
                                "n": len(xr), "out_dtype": str(odt), "grad_dtype": str(gdt)}
-    ctx.extra.setdefault("oracle", {})["c09_scalar"] = {"inputs_per_op": len(xs), "max_magnitude": 1e4, "worst": report,
-                                                         "criterion": "finite and |observed - mpmath(60 digits)| <= 1e-5 * max(1,|x|), values and gradients, float32 and float64"}
+    return {"order": list(order), "inputs_per_op": len(xs), "report": report, "failures": failures}
+
+
+def run_c09_worker(order, seed, quick, extra=()):
+    """start the worker in a fresh interpreter (same VERIF_REPO) and read its JSON"""
+    import subprocess
+    cmd = [common.PY, "-m", "checks.kernels_scalar", "--c09-worker", ",".join(order), str(seed), "quick" if quick else "thorough", json.dumps(list(extra))]
+    p = subprocess.Popen(cmd, cwd=common.ROOT, stdout=subprocess.PIPE, stderr=subprocess.PIPE, text=True, env=dict(os.environ, PYTHONHASHSEED="0", OMP_NUM_THREADS="1"))
+    return p
+
+
+def read_c09_worker(p, timeout=900):
+    out, err = p.communicate(timeout=timeout)
+    for l in out.splitlines():
+        if l.startswith("C09WORKER "):
+            return json.loads(l[len("C09WORKER "):])
+    raise RuntimeError("C09 oracle worker produced no result (rc=%s): %s" % (p.returncode, (err or out)[-600:]))
+
+
+def oracle_c09(ctx, extra_modules=True):
+    """Order-aware: each dtype order (float64 then float32, float32 then float64) in its own fresh process, so that state kept by the
+    implementation across calls (caches keyed too coarsely, globals) is exercised from empty in both directions."""
+    procs = [(order, run_c09_worker(order, ctx.seed, ctx.quick)) for order in ORDERS]
+    found, summary = 0, {}
+    for order, p in procs:
+        res = read_c09_worker(p)
+        summary[" then ".join(order)] = {"worst": res["report"], "failures": len(res["failures"]), "inputs_per_op": res["inputs_per_op"]}
+        for f in res["failures"]:
+            if found < 5:
+                found += bool(ctx.witness(f["site"], f["class"], f["input"], f["expected"], f["observed"],
+                                          note="dtype order in a fresh process: all ops in %s first, then all ops in %s" % tuple(order)))
+    ctx.extra.setdefault("oracle", {})["c09_scalar"] = {"max_magnitude": 1e4, "orders": summary,
+                                                         "criterion": "finite and |observed - mpmath(60 digits)| <= 1e-5 * max(1,|x|), values and gradients, "
+                                                                      "float32 and float64, each dtype order in a fresh subprocess"}
     return found
 
 
@@ -960,16 +1002,14 @@ def replay_witness(ctx, data):
         print("replay %s forward: %s" % (inp["op"], "still fails: %s" % json.dumps(ctx.witnesses[-1]["observed"], default=str)[:300] if still else "passes now"))
         return 1 if still else 0
     if data["class"] == "large-magnitude" or data["class"] == "raises":
-        o = [o for o in c09_ops() if o["name"] == inp["op"]][0]
-        import mpmath as mp
+        order = tuple(inp.get("dtype_order") or (inp["dtype"],))
         xv = inp["x"] if not isinstance(inp["x"], list) else inp["x"][0]
-        val, grad, _, _ = c09_eval(impl, o, [xv], inp.get("y"), dtype, [inp.get("g", 1.0)])
-        my = None if inp.get("y") is None else mp.mpf(inp["y"])
-        ref = o["val"](mp.mpf(xv), my) if inp.get("kind", "value") == "value" else o["der"](mp.mpf(xv), my) * mp.mpf(inp.get("g", 1.0))
-        got = float(val[0] if inp.get("kind", "value") == "value" else grad[0])
-        err = float(abs(mp.mpf(got) - ref)) / max(1.0, abs(xv)) if math.isfinite(got) else float("inf")
-        print("replay %s x=%r dtype=%s: observed %r, reference %s, error %g" % (inp["op"], xv, inp["dtype"], got, mp.nstr(ref, 20), err))
-        return 0 if err <= 1e-5 else 1
+        res = read_c09_worker(run_c09_worker(order, ctx.seed, True, extra=[xv]))
+        same = [f for f in res["failures"] if f["input"]["op"] == inp["op"] and f["input"]["dtype"] == inp["dtype"] and f["input"].get("y") == inp.get("y")
+                and (data["class"] == "raises" or (f["input"].get("kind") == inp.get("kind") and f["input"]["x"] == xv))]
+        print("replay %s x=%r dtype=%s order=%s: %s" % (inp["op"], xv, inp["dtype"], "->".join(order),
+                                                       "still fails: %s" % json.dumps(same[0]["observed"]) if same else "passes now"))
+        return 1 if same else 0
     o = [o for o in op_table() if o["name"] == inp["op"]][0]
     arrays = [np.array(a, dtype=dtype) if isinstance(a, list) or (isinstance(a, float) and o["operands"][k] in ("T", "Y")) else a
               for k, a in enumerate(inp["operands"])]
@@ -979,3 +1019,10 @@ def replay_witness(ctx, data):
     still = len(ctx.witnesses) > n0
     print("replay %s: %s" % (inp["op"], "still fails: %s" % json.dumps(ctx.witnesses[-1]["observed"], default=str)[:400] if still else "passes now"))
     return 1 if still else 0
+
+
+if __name__ == "__main__":
+    import sys
+    if len(sys.argv) >= 5 and sys.argv[1] == "--c09-worker":
+        r = c09_worker(tuple(sys.argv[2].split(",")), int(sys.argv[3]), sys.argv[4] == "quick", json.loads(sys.argv[5]) if len(sys.argv) > 5 else ())
+        print("C09WORKER " + json.dumps(r))
